@@ -339,7 +339,8 @@ type fields struct {
 	Inner  bool   // pkcs7.Parse(content) succeeds
 	Dec    bool   // Decrypt with the CA decrypter succeeds
 	Env    string // csr | badsig | nocsr | cperr | degen:<n> | bad   (classification of the decrypted envelope)
-	CP     string // challenge password as the library parses it
+	CP     string // challenge password as the library parses it (valid CSR only)
+	CPAny  string // the same, whatever the CSR's signature says (what a webhook may be shown)
 	Degen  string // CACerts(envelope): "!" on error else number of certificates
 	SignOK bool   // the CSR is one the authority signs (key length / type)
 	EncOK  bool   // the reply can be encrypted to the request's certificates (RSA)
@@ -413,6 +414,9 @@ func analyze(raw []byte, ca *testCA) (f fields) {
 		f.Degen = fmt.Sprint(len(certs))
 	}
 	// CSR branch: ParseCertificateRequest, CheckSignature, ParseChallengePassword
+	if cp, err := scepx509util.ParseChallengePassword(env); err == nil {
+		f.CPAny = cp
+	}
 	csr, err := x509.ParseCertificateRequest(env)
 	switch {
 	case err != nil:
